@@ -1280,14 +1280,19 @@ def _t3_side_condition(ctx, key, edges, sites):
         site_ad = sites.get((a, d))
         if site_da is None or site_ad is None:
             return False, "expected mutual call sites not found"
-        # d -> a must be under isinstance(file, str)
-        t = site_da
-        guarded = False
-        while t is not None:
-            par = getattr(t, "_parent", None)
-            if isinstance(par, ast.If) and "isinstance" in norm(par.test) and "str" in norm(par.test) and any(_contains(b, site_da) for b in par.body):
-                guarded = True
-            t = par
+        # d -> a is reached only on paths where isinstance(file, str) holds
+        from .util import truth_of
+        from ..core.symexec import run_paths, calls_on
+        fn_d = ctx.prog.by_path[d.split(":")[0]].functions[d.split(":")[1]]
+        farg = fn_d.args.args[0].arg if fn_d.args.args else "?"
+        guarded, n_reach = True, 0
+        for p in run_paths(ctx, fn_d, include_exc=True, rule="T3", limit=8000):
+            if any(c is site_da for c, e, st in calls_on(p)):
+                n_reach += 1
+                tr = truth_of(p, "isinstance")
+                if tr is None or tr[1] != f"{farg},str" or not tr[0]:
+                    guarded = False
+        guarded = guarded and n_reach > 0
         arg = site_ad.args[0] if site_ad.args else None
         fn_a = ctx.prog.by_path[a.split(":")[0]].functions[a.split(":")[1]]
         opened = False
